@@ -54,6 +54,25 @@ def _values(A):
             ("MAXm1", lambda W: rng(W, A)[1] - 1), ("MAX", lambda W: rng(W, A)[1])]
 
 
+SMALL = [False]         # rules that re-check a forwarding impl use a small boundary grid
+
+
+def small_values(A):
+    names = ("MIN", "MINp1", "n2", "n1", "0", "1", "2", "MAXm1", "MAX", "half") if A in SIGNED else ("0", "1", "2", "half", "MAXm1", "MAX")
+    d = dict(_values(A))
+    return [(n, d[n]) for n in names]
+
+
+def small_reps(A, kinds, expect_fn):
+    """reps() over the small boundary grid (value operands only)"""
+    old = SMALL[0]
+    SMALL[0] = True
+    try:
+        return reps(A, kinds, expect_fn)
+    finally:
+        SMALL[0] = old
+
+
 def amounts(A):
     return [("0", lambda W: 0), ("1", lambda W: 1), ("7", lambda W: 7), ("8", lambda W: 8), ("Bm1", lambda W: W.bits(A) - 1),
             ("B", lambda W: W.bits(A)), ("Bp1", lambda W: W.bits(A) + 1), ("Bp8", lambda W: W.bits(A) + 8),
@@ -100,11 +119,12 @@ def form_expect(form, A, exact_fn, cls, debug, retA=None):
 
 
 def kind_values(A, kind):
+    vals = small_values if SMALL[0] else values
     if kind == "T":
-        return [(n, (lambda f: lambda W: W.wrap(A, f(W)))(f)) for n, f in values(A)]
+        return [(n, (lambda f: lambda W: W.wrap(A, f(W)))(f)) for n, f in vals(A)]
     if kind in ("U", "I"):
         B = TWIN[A]
-        return [(n, (lambda f: lambda W: W.wrap(B, f(W)))(f)) for n, f in values(B)]
+        return [(n, (lambda f: lambda W: W.wrap(B, f(W)))(f)) for n, f in vals(B)]
     if kind == "s":
         return [(n, (lambda f: lambda W: PI("u32", f(W)))(f)) for n, f in amounts(A)]
     if kind == "e":
